@@ -213,7 +213,7 @@ func applyFault(rng *rand.Rand, root *bodyNode, rootSS *structSchema) (*fault, b
 	for _, k := range kinds {
 		switch k {
 		case "del-required-attr":
-			s, ok := sel(func(s site) bool { a, ok := isAttr(s); return ok && a.sch != nil && !a.sch.optional })
+			s, ok := sel(func(s site) bool { a, ok := isAttr(s); return ok && a.sch != nil && a.sch.required() })
 			if !ok {
 				continue
 			}
